@@ -1,5 +1,5 @@
 (* C01 — perf.data import conserves samples: none lost, none invented (default options, no context-switch data). *)
-From SV Require Import Model.Converter Proofs.ConverterProofs Proofs.ConverterNames.
+From SV Require Import Model.Converter Proofs.ConverterProofs Proofs.ConverterNames Model.ConverterReuse Proofs.ConverterReuseProofs Proofs.ConverterReuseValid.
 From Coq Require Import Permutation.
 Open Scope N_scope.
 
@@ -30,7 +30,29 @@ Proof. exact right_thread. Qed.
 Theorem C01_idle_ignored : forall origin s pid ts, accepted_step origin s (RSample pid 0 ts) = [] /\ step origin s (RSample pid 0 ts) = s.
 Proof. intros. split; reflexivity. Qed.
 
+(* ---- with --reuse-threads (Model/ConverterReuse.v): an exited process or thread leaves its profile handles in a pool under its name and a later
+   process or thread of that name continues them.  For EVERY record history the flushed samples are still exactly the accepted ones ... *)
+Theorem C01_reuse_conservation :
+  forall (origin : N) (rs : list record), Permutation (r_output_samples (rrun origin rs)) (r_accepted origin rs (rinit origin)).
+Proof. exact r_conservation. Qed.
+(* ... nothing is invented ... *)
+Theorem C01_reuse_nothing_else :
+  forall (origin : N) (rs : list record) (h : nat) (t : N), In (h, t) (r_output_samples (rrun origin rs)) ->
+    exists pid tid ts, In (RSample pid tid ts) rs /\ tid <> 0 /\ t = ts - origin.
+Proof.
+  intros origin rs h t H. apply (r_accepted_from_records origin rs (rinit origin) h t).
+  eapply Permutation_in; [apply C01_reuse_conservation | exact H].
+Qed.
+(* ... and every sample is filed on an existing thread entry (recycled handles never dangle) *)
+Theorem C01_reuse_existing_entries :
+  forall (origin : N) (rs : list record) (h : nat) (t : N), In (h, t) (r_output_samples (rrun origin rs)) ->
+    (h < length (r_threads (rrun origin rs)))%nat.
+Proof. exact r_output_on_existing_entries. Qed.
+
 Print Assumptions C01_conservation.
+Print Assumptions C01_reuse_conservation.
+Print Assumptions C01_reuse_nothing_else.
+Print Assumptions C01_reuse_existing_entries.
 Print Assumptions C01_nothing_else.
 Print Assumptions C01_right_thread.
 Print Assumptions C01_idle_ignored.
@@ -41,4 +63,16 @@ Example ex_c01 :
              RComm 100 100 2 true 1000000200; RSample 100 100 1000000300; RExit 100 100 1000000400;
              RSample 100 100 1000000500; RFork 100 100 101 100 1000000600; RSample 100 101 1000000700] in
   output_samples (run 1000000000 rs) = [(0%nat, 100); (1%nat, 300); (2%nat, 500); (3%nat, 700)].
+Proof. vm_compute. reflexivity. Qed.
+
+(* non-vacuity with --reuse-threads: thread 101 of process 100 inherits the name "1", exits, and thread 102 - forked under the same inherited name -
+   continues its entry (the COMM records for a name nobody left in the pool change nothing); process 100 "1" exits and process 200, forked from
+   another process named "1", continues its entries: 5 samples on 3 thread entries *)
+Example ex_c01_reuse :
+  let rs := [RComm 100 100 1 true 1000000010; RSample 100 100 1000000100; RFork 100 100 101 100 1000000110; RComm 100 101 7 false 1000000120;
+             RSample 100 101 1000000130; RExit 100 101 1000000140; RFork 100 100 102 100 1000000150; RComm 100 102 7 false 1000000160;
+             RSample 100 102 1000000170; RComm 300 300 1 true 1000000180; RExit 100 100 1000000200; RFork 200 300 200 300 1000000300;
+             RSample 200 200 1000000400; RSample 300 300 1000000500] in
+  (r_output_samples (rrun 1000000000 rs), length (r_threads (rrun 1000000000 rs))) =
+  ([(0%nat, 100); (1%nat, 130); (1%nat, 170); (2%nat, 500); (0%nat, 400)], 3%nat).
 Proof. vm_compute. reflexivity. Qed.
